@@ -91,6 +91,22 @@ def clauses(prog, rep):
     b = prog.one(R + "check")
     ir = IR(b)
     exact_clauses(rep, rule, "check", b, ir, EXACT, floor=15)
+    # HeaderVersion::check: WrongMagic iff the magic is neither spelling, UnsupportedVersion iff the version is neither 3 nor 4
+    from .common import holds_at, rel_text
+    hv = prog.one("libtw2_datafile::format::HeaderVersion::check")
+    hvir = IR(hv)
+    for variant, field in (("WrongMagic", "magic"), ("UnsupportedVersion", "version")):
+        for bi in sorted(hv.live):
+            for si, st in enumerate(hv.blocks[bi]["st"]):
+                if st["k"] == "assign" and st["r"]["k"] == "agg" and st["r"].get("variant") == variant:
+                    rels = holds_at(hvir, bi)
+                    nes = [r for r in rels if r[0] != "bool" and r[1] == "Ne" and field in show(strip_sites(r[0]))]
+                    eqs = [r for r in rels if r[0] != "bool" and r[1] == "Eq" and field in show(strip_sites(r[0]))]
+                    want = 2
+                    ok = len(nes) >= want and (variant == "WrongMagic" or True)
+                    rep.ob(rule, "HeaderVersion::check | %s" % variant, ok,
+                           "%s is returned when `%s` differs from both accepted values" % (variant, field) if ok else
+                           "%s is returned under %s" % (variant, "; ".join(rel_text(r) for r in rels) or "no condition"), hv.loc(st.get("ln")))
     # HeaderRest::check: non-negative counts and size_items divisible by 4
     h = prog.one("libtw2_datafile::format::HeaderRest::check")
     hir = IR(h)
